@@ -112,20 +112,19 @@ func (e *Engine) VerifyFunc(full string) *FuncResult {
 		} else {
 			e.assumeGlobals(st, pre)
 		}
-		if ct != nil {
+		assumeRequires := func(st *State, env map[string]specBind) {
+			if ct == nil {
+				return
+			}
+			pc := &specCtx{e: e, st: st, heap: st.Heap, oldHeap: st.Heap, oldAlloc: st.Alloc, env: env, pkg: pkg}
 			for _, rq := range ct.Requires {
-				e.assume(st, e.evalClause(pre, rq))
+				e.assume(st, e.evalClause(pc, rq))
 			}
 			for _, as := range ct.Assumes {
 				e.Assumed["explicit assumption in contract of "+full+": "+as.Src] = true
-				e.assume(st, e.evalClause(pre, as))
+				e.assume(st, e.evalClause(pc, as))
 			}
 		}
-		// pre.sat canary: the precondition must be satisfiable
-		e.canary(st, "pre.sat", fn.Pos())
-		e.entryHeap = snapshot(st.Heap)
-		e.entryAlloc = st.Alloc
-		st.Written = map[string]bool{}
 		var bindings []Val
 		for _, fv := range fn.FreeVars {
 			bindings = append(bindings, env[fv.Name()].V)
@@ -145,6 +144,12 @@ func (e *Engine) VerifyFunc(full string) *FuncResult {
 		runWith = func(k int, st *State, args []Val, env map[string]specBind) {
 			if k == len(sealedParams) {
 				e.branch(func() {
+					// the precondition is evaluated per variant (dynamic types of sealed parameters are concrete here)
+					assumeRequires(st, env)
+					e.canary(st, "pre.sat", fn.Pos())
+					e.entryHeap = snapshot(st.Heap)
+					e.entryAlloc = st.Alloc
+					st.Written = map[string]bool{}
 					e.runFunction(st, fn, args, bindings, func(st2 *State, res Val) {
 						e.atReturn(st2, fn, ct, env, res, pkg)
 					})
